@@ -171,7 +171,7 @@ package loadbalancer
 //@   requires unlocked(lb.mutex) && lb.strategy != nil && ptr(lb.strategy) != 0 && noStrategyLocks() && r != nil
 //@   requires poolOK(lb)
 //@   ensures member: result != nil ==> inPool(lb, result)
-//@   modifies RoundRobinStrategy.current, weightedBackend.currentWeight
+//@   modifies RoundRobinStrategy.current, weightedBackend.currentWeight, hashedKey
 
 // ---- pool views of the five strategies
 //@ pred inRR(s *RoundRobinStrategy, b *Backend) := exists i int :: {s.backends[i]} 0 <= i && i < len(s.backends) && s.backends[i] == b
@@ -376,14 +376,14 @@ package loadbalancer
 //@   ensures only_eligible: result != nil ==> result.IsHealthy && inPool(lb, result)
 //@   ensures none_only_if_all_ejected: result == nil ==> forall b *Backend :: inPool(lb, b) ==> !b.IsHealthy && entry_now() <= b.UnhealthyUntil
 //@   ensures cells: bmCellsOK(lb.metricsCollector)
-//@   modifies Backend.IsHealthy, RoundRobinStrategy.current, weightedBackend.currentWeight, mapof(lb.metricsCollector.metrics.BackendMetrics), metrics.BackendMetrics.IsHealthy, metrics.BackendMetrics.LastHealthCheck
+//@   modifies hashedKey, Backend.IsHealthy, RoundRobinStrategy.current, weightedBackend.currentWeight, mapof(lb.metricsCollector.metrics.BackendMetrics), metrics.BackendMetrics.IsHealthy, metrics.BackendMetrics.LastHealthCheck
 //@ loop (*LoadBalancer).findHealthyBackend #0
 //@   props C02 C04
 //@   invariant tries: 0 <= i && i <= 3
 //@   invariant cells: bmCellsOK(lb.metricsCollector)
 //@   invariant ok: lbOK(lb) && idle(lb) && poolOK(lb)
 //@   decreases 3 - i
-//@   modifies Backend.IsHealthy, RoundRobinStrategy.current, weightedBackend.currentWeight, mapof(lb.metricsCollector.metrics.BackendMetrics), metrics.BackendMetrics.IsHealthy, metrics.BackendMetrics.LastHealthCheck
+//@   modifies hashedKey, Backend.IsHealthy, RoundRobinStrategy.current, weightedBackend.currentWeight, mapof(lb.metricsCollector.metrics.BackendMetrics), metrics.BackendMetrics.IsHealthy, metrics.BackendMetrics.LastHealthCheck
 
 //@ loop (*LoadBalancer).findHealthyBackend #1
 //@   props C02 C04
@@ -471,7 +471,7 @@ package loadbalancer
 //@   ensures kept: bmCellsOK(lb.metricsCollector) && passiveOK(lb) && mtx(lb).TotalRequests == old(mtx(lb).TotalRequests)
 //@   ensures_panic aborted_counts_as_failed: mtx(lb).FailedRequests == old(mtx(lb).FailedRequests) + 1 && outcomes(lb) == old(outcomes(lb)) + 1
 //@   ensures_panic kept_on_abort: mtx(lb).TotalRequests == old(mtx(lb).TotalRequests) && mtx(lb).RateLimitedRequests == old(mtx(lb).RateLimitedRequests)
-//@   modifies Backend.ActiveConnections, Backend.IsHealthy, Backend.UnhealthyUntil, RoundRobinStrategy.current, weightedBackend.currentWeight,
+//@   modifies hashedKey, Backend.ActiveConnections, Backend.IsHealthy, Backend.UnhealthyUntil, RoundRobinStrategy.current, weightedBackend.currentWeight,
 //@            mapof(lb.healthChecks.unhealthyBackends), mapof(lb.metricsCollector.metrics.BackendMetrics),
 //@            metrics.BackendMetrics.IsHealthy, metrics.BackendMetrics.LastHealthCheck, metrics.BackendMetrics.TotalRequests, metrics.BackendMetrics.SuccessfulRequests,
 //@            metrics.BackendMetrics.FailedRequests, metrics.BackendMetrics.AverageResponseTime, metrics.BackendMetrics.ActiveConnections, metrics.Metrics.SuccessfulRequests,
